@@ -200,7 +200,8 @@ SkStrings ==
 
 \* ----------------------------------------------------- descriptive strings --
 DescText == [plain |-> "plain text", dquote |-> "say \"hi\"", bslash |-> "back\\slash", bslashend |-> "ends with \\",
-             percent |-> "100% {} {0}", apos |-> "it's", qmarks |-> "what??/"]
+             percent |-> "100% {} {0}", apos |-> "it's", qmarks |-> "what??/",
+             newline |-> "line one\nline two\r\ttabbed"]
 DescSk(cls) ==
   LET t == DescText[cls]
       W(e) == [e EXCEPT !.desc = t]
